@@ -1,11 +1,12 @@
-(* Concrete witnesses for property C15: records of the repaired defects
-   (fx = false) and non-vacuity examples (fx = true). *)
+(* Concrete witnesses for property C15: records of the repaired defects (fx = false:
+   behaviour before fix commits 81fa420, 1bd4096, 0643166) and non-vacuity
+   examples on the current code (fx = true). *)
 From Coq Require Import List NArith Arith Bool Permutation Relations.
 From HV Require Import Base.Res Base.Str Model.Query Model.QueryParse Model.QueryEdit Proofs.QueryEditProofs
   Proofs.QueryProofs Proofs.QueryParseProofs Proofs.QueryBalanceProofs Proofs.QuerySiblingProofs.
 Import ListNotations.
 
-(* RECORD OF THE REPAIRED DEFECT (fx = false, the code before the fix: commit):
+(* RECORD OF THE REPAIRED DEFECT (fx = false: behaviour before fix commit 81fa420):
      forall q a b, sperm a b -> search q a = search q b
    was false: the duplicate filter of && compared groups by content
    (HedGroup.__eq__), so two negation results on distinct groups with equal
@@ -18,12 +19,12 @@ Proof.
   split; vm_compute; reflexivity.
 Qed.
 
-(* the same witness on the repaired code *)
+(* the same witness on the current code (fix commit 81fa420) *)
 Lemma sibling_witness_fixed :
   search true 100 w_query w_ann1 = Ok true /\ search true 100 w_query w_ann2 = Ok true.
 Proof. split; vm_compute; reflexivity. Qed.
 
-(* sibling order, stated on [search] (query text) for the repaired code *)
+(* sibling order, stated on [search] (query text), current code *)
 Lemma sibling_order_search limit q a b :
   sperm a b -> is_tag a = false -> uniq a -> search true limit q a = search true limit q b.
 Proof.
@@ -47,18 +48,18 @@ Proof.
   eexists. split; [vm_compute; reflexivity|]. split; vm_compute; reflexivity.
 Qed.
 
-(* depth: with the repaired code a nesting deeper than the available depth is a ValueError *)
+(* depth (fix commit 0643166): a nesting deeper than the available depth is reported as ValueError *)
 Lemma depth_exceeded_valueerror :
   compile true 2 [ch_open; ch_open; ch_open; 97%N; ch_close; ch_close; ch_close] = Exn ValueError /\
   exists e, compile true 4 [ch_open; ch_open; ch_open; 97%N; ch_close; ch_close; ch_close] = Ok e.
 Proof. split; [vm_compute; reflexivity | eexists; vm_compute; reflexivity]. Qed.
 
-(* && is associative on the repaired code, no hypothesis *)
+(* && is associative on the current code, no hypothesis *)
 Lemma and_assoc_fixed t1 t2 t3 t4 a b c i ch :
   matches true (EAnd t1 (EAnd t2 a b) c) (Group i ch) = matches true (EAnd t3 a (EAnd t4 b c)) (Group i ch).
 Proof. apply and_assoc_general. left; reflexivity. Qed.
 
-(* before the fix: commit: under the hypothesis that no two distinct groups compare equal *)
+(* behaviour before fix commit 81fa420: under the hypothesis that no two distinct groups compare equal *)
 Lemma and_assoc_prefix t1 t2 t3 t4 a b c i ch :
   distinct_groups (Group i ch) ->
   matches false (EAnd t1 (EAnd t2 a b) c) (Group i ch) = matches false (EAnd t3 a (EAnd t4 b c)) (Group i ch).
@@ -75,3 +76,12 @@ Lemma append_example :
   search true 100 [34; 71; 114; 101; 101; 110; 34]%N w_ann1 = Ok false /\ search true 100 [34; 71; 114; 101; 101; 110; 34]%N (append_at [1] w_green w_ann1) = Ok true /\
   search true 100 [71; 114; 101; 42]%N w_ann1 = Ok false /\ search true 100 [71; 114; 101; 42]%N (append_at [1] w_green w_ann1) = Ok true.
 Proof. repeat split; vm_compute; reflexivity. Qed.
+
+(* depth, before the except clause: an exhausted depth is RecursionError, a value
+   of its own; a stray closer is a genuine ValueError whatever the depth *)
+Lemma depth_raw_example :
+  compile_raw true 2 [ch_open; ch_open; ch_open; 97%N; ch_close; ch_close; ch_close] = Exn RecursionError /\
+  (exists e, compile_raw true 8 [ch_open; ch_open; ch_open; 97%N; ch_close; ch_close; ch_close] = Ok e) /\
+  compile_raw true 8 [97%N; ch_close] = Exn ValueError /\
+  S (length (tokenize (fold [ch_open; ch_open; ch_open; 97%N; ch_close; ch_close; ch_close]))) = 8.
+Proof. split; [vm_compute; reflexivity|]. split; [eexists; vm_compute; reflexivity|]. split; vm_compute; reflexivity. Qed.
